@@ -5,6 +5,7 @@ import Driver.Wire
 import Driver.Namespace
 import Driver.Reader
 import Driver.Rules
+import Driver.BitIO
 /-! Correspondence driver: `lake env lean --run Driver/Main.lean <suite>`; one JSON case per input line,
     one JSON outcome per output line (`{"id":…, …}` or `{"id":…,"err":…}`). -/
 open Lean
@@ -20,6 +21,7 @@ def dispatch (suite : String) (j : Json) : Except String Json :=
   | "ns" => DriverNs.handle j
   | "text" => DriverReader.handle j
   | "rules" => DriverRules.handle j
+  | "bitio" => DriverBitIO.handle j
   | s => throw s!"unknown suite {s}"
 
 partial def loop (suite : String) (h : IO.FS.Stream) (out : IO.FS.Stream) : IO Unit := do
